@@ -266,8 +266,18 @@ def check_history_holder(spec) -> dict:
     prov = DummyMetaDataProvider()
     viol = None
     states = set()
+    shared = {}
     for i, op in enumerate(ops):
-        holders.append(build_holder(op))
+        if spec.get("share_holders"):
+            # SQLLineageHolder.of(h, rename, h): passing the same statement holder object twice is legal API use
+            k = json.dumps(op)
+            if k not in shared:
+                shared[k] = build_holder(op)
+            else:
+                model.probe("same_holder_object_twice")
+            holders.append(shared[k])
+        else:
+            holders.append(build_holder(op))
         qop = qualify(op)
         was_loose = model.loose
         prev_TO = set().union(*[st.TO for st in model.states])
@@ -384,7 +394,14 @@ def check_history_sql(spec) -> dict:
     g = stream(spec["seed"], "render")
     multi = any(op[0] == "rename" and len(op[1]) > 1 for op in ops)
     dialect = "mysql" if multi else spec.get("dialect", "ansi")
-    stmts = [render(op, g) for op in ops]
+    # identical operations render to byte-identical statements (a script that repeats a statement verbatim)
+    rendered = {}
+    stmts = []
+    for op in ops:
+        k = json.dumps(op)
+        if k not in rendered:
+            rendered[k] = render(op, g)
+        stmts.append(rendered[k])
     universe = {q(t) for t in spec["universe"]}
     facts = []
 
@@ -506,6 +523,9 @@ def gen(seed, path="holder") -> dict:
                 if y not in universe:
                     universe.append(y)
                 touched.append(y)
+        elif ops and r < 0.5 and any(o[0] == "rw" for o in ops):
+            # the same statement again (verbatim): re-creates what a DROP / RENAME in between took away
+            ops.append(json.loads(json.dumps(g.choice([o for o in ops if o[0] == "rw"]))))
         else:
             k = g.choice([0, 1, 1, 1, 2, 2, 3])
             R = g.sample(universe, min(k, len(universe)))
@@ -516,7 +536,7 @@ def gen(seed, path="holder") -> dict:
             touched.extend(R)
             if w:
                 touched.append(w)
-    return {"seed": seed, "path": path, "ops": ops, "universe": sorted(set(universe) | {"e", "f"})}
+    return {"seed": seed, "path": path, "ops": ops, "universe": sorted(set(universe) | {"e", "f"}), "share_holders": g.random() < 0.4}
 
 
 def plan(seed: int, tier: str) -> list[dict]:
